@@ -65,3 +65,12 @@ Theorem C03_nonempty_tree_refuted :
   delivered (run (tree 1) [(2, Ack 7 0 0); (0, Ack 7 0 0)]) = [(0, 0, None)].
 Proof. exact nonempty_tree_refuted. Qed.
 Print Assumptions C03_once_tree_refuted.
+
+(* Instance of at-most-once on the "round revisited" schedule of the attack stream: the sender completes round 0, completes
+   round 1, and comes back to round 0 with another payload that is vouched for again: handed over are the first payload of
+   round 0 and the payload of round 1, nothing else. *)
+Theorem C03_round_revisited :
+  delivered (run (fixd 1) [(0, Bcast 7 0); (2, Ack 7 0 0); (0, Bcast 8 1); (2, Ack 8 0 1); (0, Bcast 9 0); (2, Ack 9 0 0)])
+  = [(0, 0, Some 7); (0, 1, Some 8)].
+Proof. exact round_revisited_fixed. Qed.
+Print Assumptions C03_round_revisited.
